@@ -6,7 +6,7 @@ FIELDS = ('out', 'prints', 'vars', 'cls')
 RULE = 'every simple command (known and unknown) x argument lists (valid and invalid) in three spellings (group / separate lines / first + group); verbatim bodies with random relative indentation; $CMD values; counts 0..99,100,-1; distinct (command, argument list) pairs'
 TABLES = Path(__file__).resolve().parents[1] / 'tables.current.json'
 CONTROL = {'BREAK_LOOP', 'BREAKLOOP', 'CONTINUE_LOOP', 'CONTINUELOOP', 'CONTINUE', 'RETURN', 'RET', 'START', 'STARTENV', 'STARTCODE'}
-TEXTS = ['a', 'xx', 'F4', 'esc', 'TAB', 'hello world', '5', '007', '12345', '9999', 'x y', 'DELETE', '"q"', '1+1', 'TRUE', 'k 1', 'v 2+2', 'f', 'f 1,2', 'z', '$', '日', 'a,b', '(', '0-1', '100', '99', '1.5']
+TEXTS = ['x\u3000', 'a', 'xx', 'F4', 'esc', 'TAB', 'hello world', '5', '007', '12345', '9999', 'x y', 'DELETE', '"q"', '1+1', 'TRUE', 'k 1', 'v 2+2', 'f', 'f 1,2', 'z', '$', '日', 'a,b', '(', '0-1', '100', '99', '1.5']
 EXPRS = ['1', '1+1', '2*3', '"a"', '"a"+1', 'TRUE', '10-3', '7//2', '"x y"', '0', '0-1', '100', '99', '(1', '1/0', 'q', '4/2', '1.5', '""']
 
 
@@ -84,7 +84,8 @@ def generate(g, tier):
         if k < 0.4:
             cmd = r.choice(['STRING', 'STRINGLN', 'HOLD', 'ALTSTRING', 'REM2'])
             e, v = r.choice([('1+1', '2'), ('"a"+1', 'a1'), ('2*3+1', '7'), ('"x"', 'x'), ('7//2', '3'), ('1==1', 'True'), ('"a b"', 'a b'), ('10-20', '-10'), ('(4/2)', '2'), ('!(FALSE)', 'True'),
-                                 ('1,2', '[1, 2]'), ('"a",1', "['a', 1]"), ('(1,2),3', '[1, 2, 3]'), ('1,(2,3)', '[1, [2, 3]]'), ('TRUE,""', "[True, '']")])
+                                 ('0.1+0.2', '0.30000000000000004'), ('1/3', '0.3333333333333333'), ('2/3', '0.6666666666666666'), ('1.1*1.1', '1.2100000000000002'), ('0.1*3', '0.30000000000000004'),
+                                 ('100/7', '14.285714285714286'), ('123456789.123456789', '123456789.12345679'), ('1,2', '[1, 2]'), ('"a",1', "['a', 1]"), ('(1,2),3', '[1, 2, 3]'), ('1,(2,3)', '[1, [2, 3]]'), ('TRUE,""', "[True, '']")])
             cases.append(dict(op='compile', src=dict(text=f'${cmd} {e}'), meta=dict(family='dollar', expout=[f'{cmd} {v}'])))
         elif k < 0.7:
             n = r.choice([0, 1, 2, 5, 17, 99, 100, 250, 100050, 250000]) if g.chance(0.9) else 1000000
@@ -93,6 +94,14 @@ def generate(g, tier):
             n = r.choice([0, 1, 2, 5, 50, 98, 99, 100, 101, -1, -5])
             e = str(n) if n >= 0 else f'0-{-n}'
             cases.append(dict(op='compile', src=dict(text=f'WHITESPACE {e}'), meta=dict(family='whitespace', expout=([''] * n if 0 <= n < 100 else None))))
+    # a top-level group whose first line has white space of another kind after its indentation (ideographic, no-break, em space,
+    # form feed …): the line is the same argument as when it is written after the command
+    for ws in ['\u3000', '\u00a0', '\u2003', '\x0b', '\x0c', '\x1c']:
+        for cmd, arg in (('STRING', '\u3053\u3093'), ('HOLD', 'k'), ('CTRL', 'c'), ('STRINGLN', 'two words'), ('REM', 'note')):
+            gid += 1
+            # (a single-line group: the white space a group's FIRST line begins with is what the group's indentation unit is read from)
+            for k, text in enumerate([f'{cmd}\n    {ws}{arg}', f'{cmd} {ws}{arg}']):
+                cases.append(dict(op='compile', opts=dict(include_comments=True), src=dict(text=text + '\n$STRING "end"'), meta=dict(family='spelling', group=gid, form=k, cmd=cmd, args=[ws + arg])))
     # a comma list is ONE value: one line for `$CMD a,b`, and no count for ENTER / WHITESPACE
     for t in ['$ENTER 2,1', 'WHITESPACE 1,2', '$ENTER (1,2)', 'WHITESPACE (3),4', '$DELAY 1,2']:
         cases.append(dict(op='compile', src=dict(text=t), meta=dict(family='list-count', expout=None)))
